@@ -19,6 +19,7 @@ import (
 	"path/filepath"
 	"sort"
 	"strings"
+	"sync"
 	"testing"
 	"time"
 
@@ -299,9 +300,11 @@ func TestC24(t *testing.T) {
 		"the model's dependency edges are those Please itself resolves (declared inputs with provide/require substitution as in BuildTarget.ProvideFor)",
 	}
 	bin := lib.PlzBin(false)
-	n := r.Pick(40, 1500)
+	n := r.Pick(36, 1500)
 	dev := os.Getenv("VERIF_DEV") != ""
-	pair := func(stream string, i int, rng *rand.Rand, a, bb *b.Repo, edits []Edit, class string) {
+	// builtA, when not nil, is the clean build of exactly this A made once in another sandbox (the
+	// directed stream shares one A; generated commands only print relative paths and checksums)
+	pair := func(stream string, i int, rng *rand.Rand, a, bb *b.Repo, edits []Edit, class string, builtA *b.Built) {
 		sb := e2e.NewSandbox(filepath.Join(r.Scratch(), fmt.Sprintf("%s%d", stream, i)))
 		defer lib.RemoveAll(sb.Work)
 		srcOnly := true
@@ -320,7 +323,12 @@ func TestC24(t *testing.T) {
 		b.Git(sb.Repo, sb.Home, "add", "-A")
 		b.Git(sb.Repo, sb.Home, "commit", "-q", "-m", "A")
 		t0 := time.Now()
-		cleanA := b.CleanBuildInPlace(sb, bin, a, gitEnv, "-n", "4")
+		var cleanA b.Built
+		if builtA != nil {
+			cleanA = *builtA
+		} else {
+			cleanA = b.CleanBuildInPlace(sb, bin, a, gitEnv, "-n", "4")
+		}
 		if _, _, _, err := b.SyncFiles(sb.Repo, filesA, filesB); err != nil {
 			panic(err)
 		}
@@ -495,6 +503,8 @@ func TestC24(t *testing.T) {
 	// directed pairs: one hand-built repository with every layout the property names, one edit each
 	// (seed-independent; they also give the smallest witnesses), then the generated pairs
 	dcases := directedCases()
+	var onceA sync.Once
+	var directedA b.Built
 	r.ForEach("directed", len(dcases), 8, func(i int, rng *rand.Rand) {
 		a := directedRepo()
 		if err := a.Check(); err != nil {
@@ -506,7 +516,15 @@ func TestC24(t *testing.T) {
 			panic("harness: directed edit " + e.Kind + " invalid: " + err.Error())
 		}
 		r.Obs("directed_pairs", 1)
-		pair("directed", i, rng, a, bb, []Edit{e}, e.Class)
+		onceA.Do(func() {
+			sb := e2e.NewSandbox(filepath.Join(r.Scratch(), "directedA"))
+			defer lib.RemoveAll(sb.Work)
+			if err := b.WriteFiles(sb.Repo, a.AllFiles(b.RenderOpts{})); err != nil {
+				panic(err)
+			}
+			directedA = b.CleanBuildInPlace(sb, bin, a, gitEnv, "-n", "4")
+		})
+		pair("directed", i, rng, a, bb, []Edit{e}, e.Class, &directedA)
 	})
 	r.ForEach("pair", n, 8, func(i int, rng *rand.Rand) {
 		class := []string{"src", "src", "src", "src", "build", "build", "build", "build", "config", "config"}[rng.Intn(10)]
@@ -525,7 +543,7 @@ func TestC24(t *testing.T) {
 			r.Obs("no_applicable_edit", 1)
 			return
 		}
-		pair("pair", i, rng, a, bb, edits, class)
+		pair("pair", i, rng, a, bb, edits, class, nil)
 	})
 	r.RequireObserved("pairs", "queries_diff", "queries_files", "expected_labels", "reported_labels", "hidden_children_reported", "edit_kinds", "expectation_classes")
 }
